@@ -2276,7 +2276,7 @@ Qed.
 
 Lemma step_follower_read r m r' c :
   read_type (m_type m) = true -> r_state r = Follower -> step_follower r m = Ok (r', c) ->
-  gx r r' /\ r_state r' = Follower /\ exists new newm,
+  gx r r' /\ r_state r' = Follower /\ r_read_only r' = r_read_only r /\ exists new newm,
     r_read_states r' = r_read_states r ++ new /\ rir (r_msgs r') = rir (r_msgs r) ++ newm /\
     read_origin r m r' new newm.
 Proof.
@@ -2284,14 +2284,14 @@ Proof.
   destruct (m_type m =? MsgReadIndexResp) eqn:E3.
   - apply N.eqb_eq in E3. rewrite follower_readindex_resp in H by exact E3.
     destruct (m_entries m) as [|e [|e2 rest]] eqn:Ee.
-    + inversion H; subst. split; [apply gx_refl|]. split; [exact Hs|]. exists [], [].
+    + inversion H; subst. split; [apply gx_refl|]. split; [exact Hs|]. split; [reflexivity|]. exists [], [].
       rewrite !app_nil_r. auto using read_origin_none.
     + inv_bind H. inversion H; subst. clear H. destruct x as [l' b]. apply log_maybe_commit_le in Hx.
       split; [unfold gx; cbn; split; [exact Hx|]; split; [reflexivity|]; split; [reflexivity|auto]|].
-      split; [exact Hs|]. exists [mkRS (m_index m) (e_data e)], []. cbn. rewrite app_nil_r.
+      split; [exact Hs|]. split; [reflexivity|]. exists [mkRS (m_index m) (e_data e)], []. cbn. rewrite app_nil_r.
       split; [reflexivity|]. split; [reflexivity|]. right. left.
       split; [exact E3|]. split; [exact Hs|]. split; [reflexivity|]. exists e. auto.
-    + inversion H; subst. split; [apply gx_refl|]. split; [exact Hs|]. exists [], [].
+    + inversion H; subst. split; [apply gx_refl|]. split; [exact Hs|]. split; [reflexivity|]. exists [], [].
       rewrite !app_nil_r. auto using read_origin_none.
   - rewrite orb_false_r in Hty.
     assert (Hlf : lf r r').
@@ -2303,8 +2303,8 @@ Proof.
       - cbn [orb] in Hty. apply N.eqb_eq in Hty. unfold step_follower in H. rewrite Hty in H.
         cbn in H. inversion H; subst. apply lf_refl. }
     split; [apply fx_gx; apply lf_fx; exact Hlf|].
-    destruct Hlf as (_ & _ & Hrs & _ & _ & Hst & _ & _ & Hrir).
-    split; [congruence|]. exists [], []. rewrite !app_nil_r. auto using read_origin_none.
+    destruct Hlf as (_ & Hro & Hrs & _ & _ & Hst & _ & _ & Hrir).
+    split; [congruence|]. split; [exact Hro|]. exists [], []. rewrite !app_nil_r. auto using read_origin_none.
 Qed.
 
 Lemma step_role_read r m r' c :
@@ -2321,7 +2321,7 @@ Proof.
   { intros Hc. apply step_candidate_read in Hc; [|exact Hty]. subst r'. split; [apply gx_refl|].
     exists [], []. rewrite !app_nil_r. auto using read_origin_none. }
   destruct (r_state r) eqn:Es; auto.
-  - destruct (step_follower_read r m r' c Hty Es H) as (A & _ & B). auto.
+  - destruct (step_follower_read r m r' c Hty Es H) as (A & _ & _ & B). auto.
   - destruct (step_leader_read r m r' c Hty Es H) as (A & _ & B). auto.
 Qed.
 
@@ -2897,3 +2897,108 @@ Proof. unfold rn_read_index. intros H. inv_bind H. inversion H; subst. eapply st
 
 Theorem rn_ready_gx n n' rd : rn_ready n = Ok (n', rd) -> gxn n n'.
 Proof. intros H. apply rn_ready_read_states in H. apply H. Qed.
+
+(* ================================================================== *)
+(* 16. a node that learns of a higher term forgets its pending reads   *)
+(* ================================================================== *)
+
+(* the message makes the node step down (everything but: a vote request refused under the
+   leader lease, a pre-vote request, a granted pre-vote response) *)
+Definition steps_down (r : raft) (m : msg) : bool :=
+  let t := m_type m in
+  negb (((t =? MsgRequestVote) || (t =? MsgRequestPreVote))
+        && negb (list_eqb (m_context m) CAMPAIGN_TRANSFER)
+        && (r_check_quorum r && negb (r_leader_id r =? INVALID_ID)
+            && (r_election_elapsed r <? r_election_timeout r)))
+  && negb ((t =? MsgRequestPreVote) || ((t =? MsgRequestPreVoteResponse) && negb (m_reject m))).
+
+Lemma step_prologue_steps_down r m pre :
+  r_term r < m_term m -> steps_down r m = true -> step_prologue r m = Ok pre ->
+  exists l r1, pre = inr r1 /\ become_follower r (m_term m) l = Ok r1.
+Proof.
+  unfold steps_down, step_prologue. intros Hlt Hsd H.
+  apply andb_prop in Hsd. destruct Hsd as [S1 S2]. apply negb_true_iff in S1, S2.
+  assert (E0 : (m_term m =? 0) = false) by (apply N.eqb_neq; lia).
+  assert (E1 : (r_term r <? m_term m) = true) by (apply N.ltb_lt; exact Hlt).
+  rewrite E0, E1 in H. cbv zeta in H. rewrite S1, S2 in H.
+  cif H; inv_bind H; inversion H; subst; eauto.
+Qed.
+
+Theorem higher_term_drops_reads r m r' c :
+  r_term r < m_term m -> steps_down r m = true -> step r m = Ok (r', c) ->
+  r_read_only r' = ro_new (ro_option (r_read_only r)) /\
+  rir (r_msgs r') = rir (r_msgs r) /\
+  exists new, r_read_states r' = r_read_states r ++ new /\
+    (new = [] \/
+     (m_type m = MsgReadIndexResp /\ exists e, m_entries m = [e] /\ new = [mkRS (m_index m) (e_data e)])).
+Proof.
+  intros Hlt Hsd H. rewrite step_decompose in H. inv_bind H.
+  destruct (step_prologue_steps_down r m x Hlt Hsd Hx) as (l & r1 & -> & Hbf).
+  pose proof (become_follower_drops_reads _ _ _ _ Hbf) as [Hro1 Hrs1].
+  pose proof (become_follower_effect _ _ _ _ Hbf) as (_ & _ & _ & Hst1 & _ & Hm1 & _).
+  destruct (read_type (m_type m)) eqn:Hty.
+  - rewrite step_body_read_type in H by exact Hty. unfold step_role in H. rewrite Hst1 in H.
+    destruct (step_follower_read r1 m r' c Hty Hst1 H) as (_ & _ & Hro & new & newm & A & B & Hor).
+    split; [congruence|].
+    destruct Hor as [(-> & ->)|[(Ht & _ & -> & e & He & ->)|[(_ & Hs & _)|(_ & Hs & _)]]];
+      try congruence; rewrite app_nil_r in B.
+    + split; [congruence|]. exists []. rewrite A, Hrs1. auto.
+    + split; [congruence|]. exists [mkRS (m_index m) (e_data e)]. rewrite A, Hrs1.
+      split; [reflexivity|]. right. eauto.
+  - apply step_body_other_fx in H; [|exact Hty]. destruct H as (_ & A & B & _ & D).
+    split.
+    + destruct B as [B|B]; rewrite B, Hro1; reflexivity.
+    + split; [congruence|]. exists []. rewrite app_nil_r. split; [congruence|auto].
+Qed.
+
+(* ================================================================== *)
+(* 17. RawNode::read_index                                             *)
+(* ================================================================== *)
+
+Definition read_index_msg (rctx : list N) : msg :=
+  msg_default <| m_type := MsgReadIndex |> <| m_entries := [mkEntry EntryNormal 0 0 rctx []] |>.
+
+Lemma rn_read_index_eq n rctx :
+  rn_read_index n rctx = x <- step (rn_raft n) (read_index_msg rctx) ;; Ok (n <| rn_raft := fst x |>).
+Proof. reflexivity. Qed.
+
+(* on a Safe leader of a multi-voter group that has committed in its term: record + heartbeats *)
+Theorem rn_read_index_leader_safe n rctx n' :
+  let r := rn_raft n in
+  r_state r = Leader -> commit_to_current_term r = Ok true ->
+  singleton_conf r = false -> ro_option (r_read_only r) = 0 ->
+  rn_read_index n rctx = Ok n' ->
+  rn_raft n' = r <| r_read_only := ro_after_request r (read_index_msg rctx) rctx |>
+                 <| r_msgs := r_msgs r ++ hb_list r (Some rctx) (pids (t_progress (r_prs r))) |>.
+Proof.
+  intros r Hs Hc Hsing Ho H. rewrite rn_read_index_eq in H. inv_bind H. inversion H; subst. clear H.
+  destruct x as [r1 c1]. cbn [rn_raft fst].
+  apply readindex_safe_records_commit in Hx; auto.
+  destruct Hx as (_ & e & rest & He & ->). cbn in He. inversion He; subst. reflexivity.
+Qed.
+
+(* on a follower: forwarded to the known leader with [from] = the follower, or dropped *)
+Theorem rn_read_index_follower n rctx n' :
+  let r := rn_raft n in
+  r_state r = Follower -> rn_read_index n rctx = Ok n' ->
+  (r_leader_id r = INVALID_ID /\ rn_raft n' = r) \/
+  (r_leader_id r <> INVALID_ID /\
+   rn_raft n' = r <| r_msgs := r_msgs r ++
+                     [(read_index_msg rctx) <| m_to := r_leader_id r |> <| m_from := r_id r |>] |>).
+Proof.
+  intros r Hs H. rewrite rn_read_index_eq in H. inv_bind H. inversion H; subst. clear H.
+  destruct x as [r1 c1]. cbn [rn_raft fst].
+  rewrite step_same_term in Hx; [|left; reflexivity|reflexivity|reflexivity].
+  unfold step_role in Hx. fold r in Hx. rewrite Hs in Hx.
+  apply follower_readindex_forward_exact in Hx; [|reflexivity].
+  destruct Hx as (_ & [(A & ->)|(A & _ & ->)]); [left; auto|right]. split; [exact A|reflexivity].
+Qed.
+
+(* on a leader that has not committed in its term: nothing at all *)
+Theorem rn_read_index_leader_not_ready n rctx :
+  r_state (rn_raft n) = Leader -> commit_to_current_term (rn_raft n) = Ok false ->
+  rn_read_index n rctx = Ok (n <| rn_raft := rn_raft n |>).
+Proof.
+  intros Hs Hc. rewrite rn_read_index_eq.
+  rewrite readindex_requires_own_term_commit; auto. cbn. lia.
+Qed.
